@@ -113,6 +113,7 @@ Theorem biconjugate_refuted :
     wf 1 e /\ value sqrt 0 e [1] x = Ok vx /\ cconj [1] e = Ok e' /\ cconj [1] e' = Ok e'' /\
     value sqrt 0 e'' [1] x = Ok vxx /\ ~ veq (Ok vxx) (Ok vx).
 Proof. exact biconj_refuted_proof. Qed.
+Print Assumptions biconjugate_refuted.
 
 (* T2  The Kullback-Leibler pairs (formulas transcribed by hand from the four _call bodies, with
    scipy's xlogy; NOT executed by the correspondence because of ln/exp -- tie = probes only):
@@ -127,6 +128,7 @@ Theorem kl_cross_entropy_fenchel_young : forall (w g x y : list R),
   length g = length w -> length x = length w -> length y = length w ->
   wdot w x y <= KLCE w g x + KLCEconj w g y.
 Proof. exact klce_fenchel_young_proof. Qed.
+Print Assumptions kl_cross_entropy_fenchel_young.
 (* entrywise equality at the gradients 1 - g/x  and  ln(x/g) *)
 Theorem kl_equality_at_gradient : forall g x : R, 0 < g -> 0 < x ->
   kl1 g x + klc1 g (1 - g / x) = x * (1 - g / x) /\ kce1 g x + kcec1 g (ln (x / g)) = x * ln (x / g).
